@@ -61,8 +61,9 @@ FLT_W = (0.5, 1.0, 1.5, 0.25, 2.75, 4.0)
 #  independent oracle: brute-force minimum flow decomposition (written against the property text)
 # =====================================================================================================
 
-def enum_paths(nodes, edges):
-    """all source-to-sink paths of the DAG (source: no in-edge, sink: no out-edge); an isolated node is a one-node path"""
+def enum_paths(nodes, edges, starts=(), ends=()):
+    """all source-to-sink paths of the DAG (source: no in-edge or a declared additional start, sink: no out-edge or a declared
+    additional end); an isolated node is a one-node path"""
     succ = {v: [] for v in nodes}
     indeg = {v: 0 for v in nodes}
     for u, v in edges:
@@ -70,12 +71,12 @@ def enum_paths(nodes, edges):
     out = []
 
     def rec(p):
-        if not succ[p[-1]]:
-            out.append(tuple(p)); return
+        if not succ[p[-1]] or p[-1] in ends:
+            out.append(tuple(p))
         for w in succ[p[-1]]:
             rec(p + [w])
     for s in nodes:
-        if indeg[s] == 0:
+        if indeg[s] == 0 or s in starts:
             rec([s])
     return out
 
@@ -156,7 +157,7 @@ def brute_min(inst):
     origin = inst.get("origin", "edge")
     wint = inst["weight_type"] == "int"
     nodes, edges = inst["nodes"], [tuple(e) for e in inst["edges"]]
-    paths = enum_paths(nodes, edges)
+    paths = enum_paths(nodes, edges, set(inst.get("starts", [])), set(inst.get("ends", [])))
     active, tgt = oracle_data(inst)
     aset = set(active)
     cols = [elements_of(p, origin) & aset for p in paths]
@@ -328,6 +329,40 @@ def node_instance(rng):
         inst["ignore"] = []
         inst["node_flow"] = [[v, qstr(fn[v])] for v in nodes]
     return inst
+
+
+def node_ends_instance(rng):
+    """node-weighted input in which one planted path stops (or begins) at an inner node that is declared as an additional end
+    (start): only a path ending (starting) there explains the values"""
+    for _ in range(200):
+        nodes, edges = small_dag(rng)
+        if len(nodes) > 6 or not edges:
+            continue
+        wint = rng.random() < 0.7
+        _, _, chosen, ws = planted_flow(rng, nodes, edges, wint, element="node")
+        cand = [j for j, p in enumerate(chosen) if len(p) >= 2]
+        if not cand:
+            continue
+        j = rng.choice(cand); p = chosen[j]
+        cut = rng.randint(1, len(p) - 1)
+        starts, ends = [], []
+        if rng.random() < 0.6:
+            chosen[j] = p[:cut]; ends = [p[cut - 1]]
+        else:
+            chosen[j] = p[cut:]; starts = [p[cut]]
+        if rng.random() < 0.3:                      # a declared node that no planted path needs
+            (starts if rng.random() < 0.5 else ends).append(rng.choice(nodes))
+        fn = {v: 0 for v in nodes}
+        for q, w in zip(chosen, ws):
+            for v in q:
+                fn[v] += w
+        if any(fn[v] == 0 for v in nodes):
+            continue
+        return {"cls": "MinFlowDecomp", "nodes": list(nodes), "edges": [list(e) for e in edges], "origin": "node",
+                "weight_type": "int" if wint else "float", "constraints": [], "coverage": "1", "ignore": [],
+                "starts": sorted(set(starts)), "ends": sorted(set(ends)),
+                "node_flow": [[v, qstr(fn[v])] for v in nodes], "planted": len(chosen)}
+    return node_instance(rng)
 
 
 def many_paths_instance():
@@ -728,7 +763,8 @@ def run_k5(ctx):
         k5_case(ctx, inst, opts, None, suite="K5.minimum")
     for it in range(ctx.n(220, 2500)):
         r = rng.random()
-        inst = detour_instance(rng) if it % 40 == 7 else node_instance(rng) if r < 0.3 else edge_instance(rng)
+        inst = detour_instance(rng) if it % 40 == 7 else node_ends_instance(rng) if it % 8 == 3 else \
+            node_instance(rng) if r < 0.3 else edge_instance(rng)
         best = brute_min(inst)
         if best is None:
             continue
